@@ -12,6 +12,13 @@ event = L.event
 
 
 def run(ctx):
+    try:
+        _run(ctx)
+    except L.GiveUp:   # parses that do not terminate: judged, nothing more is generated
+        L.judge_hangs(ctx, SPEC)
+
+
+def _run(ctx):
     quick = ctx.tier == "quick"
     ctx.rule = (
         "TLC enumerates every token list up to MaxLen over a 27-token adversarial alphabet x 7 small formats, parsing each "
